@@ -786,7 +786,8 @@ fn main() {
          PSF2/PSF1/raw fonts, synthetic + shipped TheDraw fonts, 4 palettes per format; random bytes; format-shaped streams (terminal grammar of the loader's parser incl. UTF-8 with BOM, \
          Tundra commands, XBin header + runs, PSF headers, TDF header + tables, palette lines). Mutations: truncation, 1-4 byte corruption weighted to header and SAUCE tail, header-field \
          extremes per known field offset, SAUCE trailers with generated fields / comment counts / comment blocks, insert/cut, and all of these inside the base64 zTXt records of IcyDraw files. \
-         Part `systematic` enumerates every truncation and every field extreme of every golden file (and of every IcyDraw record). \
+         Part `systematic` enumerates every truncation and every field extreme of every golden file and of every IcyDraw record, every trailer-only suffix of the files with SAUCE, \
+         every IcyDraw record under every other keyword, hand-written IcyDraw layer / continuation records cut at every length, every 1-byte file per loader and every 2-byte file for seq/ata. \
          Non-trivial: the loader got past its magic / minimum-length check: it returned Ok with content (a buffer from non-empty input; for IcyDraw a document with layers; Some(sauce); >= 1 colour), \
          or it returned an error that is not one of the magic/length errors and differs from the error for the header bytes alone. Distinct by hash of the case.",
     );
